@@ -123,8 +123,9 @@ class LinePixelRegion(PixelRegion):
         # width of the arrow is non-scalable in patches.
         from matplotlib.patches import Arrow
 
-        x = self.start.x - origin[0]
-        y = self.start.y - origin[1]
+        # in float64: an unsigned integer origin would wrap around
+        x = np.subtract(self.start.x, origin[0], dtype=float)
+        y = np.subtract(self.start.y, origin[1], dtype=float)
         dx = self.end.x - self.start.x
         dy = self.end.y - self.start.y
         kwargs.setdefault('width', 0.1)
